@@ -71,9 +71,13 @@ func TestC12(t *testing.T) {
 				}
 				n := pool[rapid.IntRange(0, len(pool)-1).Draw(rt, "inlineNode")]
 				comment := "// @ignore " + rapid.SampledFrom([]string{"ALL", "ALL", "IMM", "CTOR", "TONL", "PKGO", "IMPL", "CTOR01, CTOR03, TONL01", "PKGO01, IMPL03"}).Draw(rt, "inlineCodes")
-				if n.Node.End > n.Node.Start && rapid.Bool().Draw(rt, "inlineLast") {
+				// gofmt rewrites a parenthesised single result `func F() (\n\tT,\n) {` into
+				// `func F() T {`: what the header line holds changes, so such headers get no comment
+				fd, isFunc := n.Decl.(*proggen.FuncDecl)
+				reshaped := n.Stmt == nil && isFunc && len(fd.Results) > 0
+				if n.Node.End > n.Node.Start && (reshaped || rapid.Bool().Draw(rt, "inlineLast")) {
 					n.Node.TrailingLast = comment
-				} else {
+				} else if !reshaped {
 					n.Node.Trailing = comment
 				}
 			}
